@@ -1,7 +1,7 @@
 (* C03 — signature hashes follow the Elements legacy, segwit-v0 and taproot algorithms.  Statements only; proofs in Proofs/Sighash.v.
    Specification: Model/SighashSpec.v (TRUSTED transcription of Elements consensus, on the numeric hash type, with the legacy
    outpoint form as the explicit parameter `legacy_flags_in_index` — open question Q1; the code implements `true`).
-   Implementation model: Model/SighashImpl.v (src/sighash.rs: caches, Prevouts discipline, the three pre-image writers).
+   Implementation model: Model/SighashImpl.v (src/sighash.rs: caches, Prevouts discipline, the three pre-image writers, the digests).
    `impl_msg t q` / `impl_digest t q` (Model/SighashQuery.v) are the writer output and the digest of query q on a cache freshly
    created for transaction t.  All theorems are universal over the hash functions `H` (SHA-256) and `Htag` (TapSighash tag),
    the curve-point oracle and MAX_VEC_SIZE; "the digest changes" is stated as collision extraction. *)
@@ -21,23 +21,28 @@ Notation impl_msg := (impl_msg pt_ok maxvec H).
 Notation impl_digest := (impl_digest pt_ok maxvec H Htag).
 
 (* ------------------------------------------------ refinement ------------------------------------------------ *)
-(* Legacy. For every transaction, every existing input index, every script code and every ECDSA hash type outside the class of
-   finding F17 (`legacy_single_bug`: SIGHASH_SINGLE without a matching output): the written pre-image is the consensus message
-   and the digest is its double SHA-256 — with the pegin/issuance flag bits inside the serialized outpoint index (Q1 = true). *)
-Theorem C03_legacy_refines : forall t idx sc ty, (idx < length (tx_in t))%nat -> legacy_single_bug t idx (ecdsa_u32 ty) = false ->
+(* Legacy. For every transaction, every existing input index, every script code and every ECDSA hash type the digest is the
+   consensus digest (with the pegin/issuance flag bits inside the serialized outpoint index, Q1 = true) ... *)
+Theorem C03_legacy_refines : forall t idx sc ty, (idx < length (tx_in t))%nat ->
+  exists d, impl_digest t (OLegacy idx sc ty) = SOk d /\ spec_legacy_digest pt_ok H true t idx sc (ecdsa_u32 ty) = Some d.
+Proof. exact (legacy_digest_refines pt_ok maxvec H Htag). Qed.
+(* ... where consensus defines a message (everything but SIGHASH_SINGLE without a matching output) the written pre-image is that
+   message and the digest its double SHA-256 ... *)
+Theorem C03_legacy_refines_message : forall t idx sc ty, (idx < length (tx_in t))%nat -> legacy_single_bug t idx (ecdsa_u32 ty) = false ->
   exists m, spec_legacy_msg pt_ok true t idx sc (ecdsa_u32 ty) = Some m /\
             impl_msg t (OLegacy idx sc ty) = SOk m /\ impl_digest t (OLegacy idx sc ty) = SOk (H (H m)) /\
             spec_legacy_digest pt_ok H true t idx sc (ecdsa_u32 ty) = Some (H (H m)).
 Proof. exact (pack_legacy pt_ok maxvec H Htag). Qed.
+(* ... and for SIGHASH_SINGLE without a matching output the writer emits the constant 0100..00 and the digest IS that constant, as
+   in consensus (finding F17 — the constant was hashed — was repaired by b8dcccb) *)
+Theorem C03_legacy_single_out_of_range : forall t idx sc ty, (idx < length (tx_in t))%nat -> legacy_single_bug t idx (ecdsa_u32 ty) = true ->
+  impl_msg t (OLegacy idx sc ty) = SOk uint256_one /\ impl_digest t (OLegacy idx sc ty) = SOk uint256_one /\
+  spec_legacy_digest pt_ok H true t idx sc (ecdsa_u32 ty) = Some uint256_one /\ spec_legacy_msg pt_ok true t idx sc (ecdsa_u32 ty) = None.
+Proof. exact (legacy_single_bug_digests pt_ok maxvec H Htag). Qed.
 (* the documented panic: exactly the indices for which consensus defines nothing *)
 Theorem C03_legacy_panics_out_of_range : forall t idx sc ty, (length (tx_in t) <= idx)%nat ->
   impl_msg t (OLegacy idx sc ty) = SPanic /\ impl_digest t (OLegacy idx sc ty) = SPanic /\ spec_legacy_digest pt_ok H true t idx sc (ecdsa_u32 ty) = None.
 Proof. exact (legacy_oob_panics pt_ok maxvec H Htag). Qed.
-(* finding F17, for every transaction: consensus signs the constant one, the library signs its double hash *)
-Theorem C03_legacy_single_bug_digests : forall t idx sc ty, (idx < length (tx_in t))%nat -> legacy_single_bug t idx (ecdsa_u32 ty) = true ->
-  impl_msg t (OLegacy idx sc ty) = SOk uint256_one /\ impl_digest t (OLegacy idx sc ty) = SOk (H (H uint256_one)) /\
-  spec_legacy_digest pt_ok H true t idx sc (ecdsa_u32 ty) = Some uint256_one.
-Proof. exact (legacy_single_bug_digests pt_ok maxvec H Htag). Qed.
 
 (* Segwit v0. Every existing input index, script code, amount, ECDSA type. *)
 Theorem C03_segwit_refines : forall t idx sc v ty, (idx < length (tx_in t))%nat ->
@@ -66,9 +71,9 @@ Theorem C03_taproot_entry_points : forall t idx pv lh ty g,
   impl_digest t (OTapKey idx pv ty g) = impl_digest t (OTaproot idx pv None None ty g) /\
   impl_digest t (OTapScript idx pv lh ty g) = impl_digest t (OTaproot idx pv None (Some (lh, 4294967295)) ty g).
 Proof. intros. split; reflexivity. Qed.
-(* Prevouts::One gives the same message and digest as All for the ANYONECANPAY types outside the class of finding F11 (C13) *)
+(* Prevouts::One gives the same message and digest as All for every ANYONECANPAY type (C13) *)
 Theorem C03_taproot_refines_one : forall t spent idx o annex leaf ty g,
-  schnorr_acp ty = true -> F11_known ty = false -> length spent = length (tx_in t) -> nth_error spent idx = Some o ->
+  schnorr_acp ty = true -> length spent = length (tx_in t) -> nth_error spent idx = Some o ->
   impl_msg t (OTaproot idx (POne idx o) annex leaf ty g) = impl_msg t (OTaproot idx (PAll spent) annex leaf ty g) /\
   impl_digest t (OTaproot idx (POne idx o) annex leaf ty g) = impl_digest t (OTaproot idx (PAll spent) annex leaf ty g).
 Proof. exact (pack_taproot_one pt_ok maxvec H Htag). Qed.
@@ -158,21 +163,8 @@ Theorem C03_committed_matters_partial_taproot : forall t t' spent spent' idx idx
 Proof. exact (taproot_commits pt_ok H Hlen). Qed.
 End C03.
 
-(* ------------------------------------------------ finding F17, concretely ------------------------------------------------ *)
 Definition c03_in : txin := {| in_prev := {| o_txid := repeat x11 32; o_vout := 0 |}; in_pegin := false; in_script := []; in_seq := 4294967295;
   in_iss := null_issuance; in_wit := empty_inwit |}.
-Definition c03_tx0 : tx := {| tx_version := 2; tx_lock := 0; tx_in := [c03_in]; tx_out := [] |}.
-(* whenever the double hash of the constant is not the constant itself (true of SHA-256: the implementation-side predicate of the
-   harness observes it on every run, and C03_F17_sha256 below computes it) the library's digest differs from the consensus digest:
-   the unrestricted C03_legacy_refines is false *)
-Theorem C03_legacy_single_bug_refuted : forall pt_ok maxvec H Htag, H (H uint256_one) <> uint256_one ->
-  exists t idx sc ty d d',
-    (idx < length (tx_in t))%nat /\
-    impl_digest pt_ok maxvec H Htag t (OLegacy idx sc ty) = SOk d /\ spec_legacy_digest pt_ok H true t idx sc (ecdsa_u32 ty) = Some d' /\ d <> d'.
-Proof. intros pt_ok maxvec H Htag NE. exists c03_tx0, 0%nat, [x51], ESingle, (H (H uint256_one)), uint256_one.
-  destruct (C03_legacy_single_bug_digests pt_ok maxvec H Htag c03_tx0 0%nat [x51] ESingle) as (_ & D & S); [cbn; auto|reflexivity|]. auto. Qed.
-Example C03_F17_sha256 : sha256 (sha256 uint256_one) <> uint256_one.
-Proof. vm_compute. discriminate. Qed.
 
 (* ------------------------------------------------ Q1 and the repository's pinned vector ------------------------------------------------ *)
 (* test_legacy_sighashes, last vector: an ISSUING input (index word 0x80000000), SIGHASH_ALL, digest produced by Elements Core.
@@ -211,7 +203,9 @@ Example C03_relations_nontrivial :
   tx_eq_but_other_sequences 1 c03_tx {| tx_version := 2; tx_lock := 0; tx_in := [set_seq c03_in 77; c03_iss_in]; tx_out := [c03_out] |}.
 Proof. unfold tx_sig_eq, tx_eq_at_input, tx_eq_but_other_sequences, in_sig_eq. cbn. repeat split; repeat constructor. Qed.
 
-Check (C03_legacy_refines : forall pt_ok maxvec H Htag t idx sc ty, (idx < length (tx_in t))%nat -> legacy_single_bug t idx (ecdsa_u32 ty) = false ->
+Check (C03_legacy_refines : forall pt_ok maxvec H Htag t idx sc ty, (idx < length (tx_in t))%nat ->
+  exists d, impl_digest pt_ok maxvec H Htag t (OLegacy idx sc ty) = SOk d /\ spec_legacy_digest pt_ok H true t idx sc (ecdsa_u32 ty) = Some d).
+Check (C03_legacy_refines_message : forall pt_ok maxvec H Htag t idx sc ty, (idx < length (tx_in t))%nat -> legacy_single_bug t idx (ecdsa_u32 ty) = false ->
   exists m, spec_legacy_msg pt_ok true t idx sc (ecdsa_u32 ty) = Some m /\
             impl_msg pt_ok maxvec H t (OLegacy idx sc ty) = SOk m /\ impl_digest pt_ok maxvec H Htag t (OLegacy idx sc ty) = SOk (H (H m)) /\
             spec_legacy_digest pt_ok H true t idx sc (ecdsa_u32 ty) = Some (H (H m))).
@@ -236,12 +230,12 @@ Check (C03_anyonecanpay_ignores_other_inputs : forall pt_ok H flags idx t t', tx
   (forall spent spent' annex leaf ht g, tap_input_acp ht = true ->
      length spent = length (tx_in t) -> length spent' = length (tx_in t') -> nth_error spent idx = nth_error spent' idx ->
      spec_taproot_msg pt_ok H t spent idx annex leaf ht g = spec_taproot_msg pt_ok H t' spent' idx annex leaf ht g)).
-Check (C03_legacy_single_bug_refuted : forall pt_ok maxvec H Htag, H (H uint256_one) <> uint256_one ->
-  exists t idx sc ty d d',
-    (idx < length (tx_in t))%nat /\
-    impl_digest pt_ok maxvec H Htag t (OLegacy idx sc ty) = SOk d /\ spec_legacy_digest pt_ok H true t idx sc (ecdsa_u32 ty) = Some d' /\ d <> d').
+Check (C03_taproot_refines_one : forall pt_ok maxvec H Htag t spent idx o annex leaf ty g,
+  schnorr_acp ty = true -> length spent = length (tx_in t) -> nth_error spent idx = Some o ->
+  impl_msg pt_ok maxvec H t (OTaproot idx (POne idx o) annex leaf ty g) = impl_msg pt_ok maxvec H t (OTaproot idx (PAll spent) annex leaf ty g) /\
+  impl_digest pt_ok maxvec H Htag t (OTaproot idx (POne idx o) annex leaf ty g) = impl_digest pt_ok maxvec H Htag t (OTaproot idx (PAll spent) annex leaf ty g)).
 Print Assumptions C03_legacy_refines.
 Print Assumptions C03_segwit_refines.
 Print Assumptions C03_taproot_refines.
 Print Assumptions C03_committed_matters_partial_taproot.
-Print Assumptions C03_legacy_single_bug_refuted.
+Print Assumptions C03_legacy_single_out_of_range.
